@@ -467,7 +467,7 @@ def main(argv=None) -> int:
     # vacuity guards
     if early_stop:
         lines.append(f'note: a bounded check replayed a violation on the real code; {len(tasks_d) - len(ded_by_i)} of {len(tasks_d)} deductive tasks were abandoned (not attempted on this run)')
-    if prop.contracts and n_ob == 0 and not checker_errors and not early_stop:
+    if prop.contracts and n_ob == 0 and not checker_errors and not early_stop and not violations:
         lines.append(f'CHECKER-ERROR zero obligations generated for {pid}')
         checker_errors.append('zero obligations')
     for r in bnd:
